@@ -21,7 +21,9 @@ META = dict(
 
 def run(ctx):
     n = 80 if ctx.tier == "quick" else 1500
-    fams = [("gen", "gen.p1", n), ("gen", "gen.p2", n), ("gen", "gen.p2b1", n), ("gen", "gen.idem", n),
+    nc = 40 if ctx.tier == "quick" else 400     # conducted replay: behaviours per model instance
+    fams = [("conduct", "conduct.p1", nc), ("conduct", "conduct.p2b1", nc), ("conduct", "conduct.p2", nc),
+            ("gen", "gen.p1", n), ("gen", "gen.p2", n), ("gen", "gen.p2b1", n), ("gen", "gen.idem", n),
             lambda: pc.family_faults(False, ctx.seed), lambda: pc.family_faults(True, ctx.seed),
             lambda: pc.family_gates(False), lambda: pc.family_gates(True), lambda: pc.family_gates_metafail(False), pc.family_sibling_syn, pc.family_level_jump, lambda: pc.family_resubmit(False), lambda: pc.family_resubmit(True), lambda: pc.family_error_codes(False), lambda: pc.family_error_codes(True), pc.family_idem_clean, pc.family_retry0, lambda: pc.family_sync(False), lambda: pc.family_sync(True), lambda: pc.family_overflow(False), lambda: pc.family_overflow(True)]
     mc = ["MCProducer.small.cfg", "MCProducer.idem.cfg"] if ctx.tier == "quick" else ["MCProducer.quick.cfg", "MCProducer.idem.cfg", "MCProducer.p2.cfg"]
